@@ -8,6 +8,7 @@ use std::process::{Command, Stdio};
 use std::time::{Duration, Instant};
 
 pub struct ProcOut {
+    pub pid: u32,
     pub status: Option<i32>, // None = timeout / killed by signal
     pub stdout: Vec<u8>,
     pub stderr: Vec<u8>,
@@ -59,6 +60,7 @@ pub fn spawn_limited<S: AsRef<std::ffi::OsStr>>(dir: &Path, args: &[S], stdin: &
         }
     }
     let mut child = cmd.spawn().expect("spawn lace");
+    let pid = child.id();
     {
         let mut si = child.stdin.take().unwrap();
         let _ = si.write_all(stdin);
@@ -71,7 +73,7 @@ pub fn spawn_limited<S: AsRef<std::ffi::OsStr>>(dir: &Path, args: &[S], stdin: &
                 if start.elapsed() > Duration::from_millis(timeout_ms) {
                     let _ = child.kill();
                     let out = child.wait_with_output().expect("wait");
-                    return ProcOut { status: None, stdout: out.stdout, stderr: out.stderr };
+                    return ProcOut { pid, status: None, stdout: out.stdout, stderr: out.stderr };
                 }
                 std::thread::sleep(Duration::from_millis(2));
             }
@@ -79,7 +81,7 @@ pub fn spawn_limited<S: AsRef<std::ffi::OsStr>>(dir: &Path, args: &[S], stdin: &
         }
     }
     let out = child.wait_with_output().expect("wait");
-    ProcOut { status: out.status.code(), stdout: out.stdout, stderr: out.stderr }
+    ProcOut { pid, status: out.status.code(), stdout: out.stdout, stderr: out.stderr }
 }
 
 pub struct TmpDir(pub PathBuf);
@@ -713,8 +715,31 @@ pub fn run_c07(o: &crate::Opts) {
     sink.finish(o, &format!("{{\"cases\":{},\"source_kinds\":{{{}}},\"samples\":[{}]}}", n_cases, kinds_json.join(","), samples.join(",")));
 }
 
+/// Process ids the next processes of this machine will get: `n` of them, from the one after the
+/// most recently allocated (wrapping at the kernel's limit as the kernel does).
+fn upcoming_pids(n: u32) -> Vec<u32> {
+    let read = |p: &str| std::fs::read_to_string(p).ok().and_then(|s| s.trim().parse::<u32>().ok());
+    let last = read("/proc/sys/kernel/ns_last_pid").unwrap_or_else(|| {
+        // no such file: the process id of a process created just now
+        Command::new(lace_bin()).arg("--version").stdout(Stdio::null()).stderr(Stdio::null()).spawn().map(|mut c| { let id = c.id(); let _ = c.wait(); id }).unwrap_or(std::process::id())
+    });
+    let max = read("/proc/sys/kernel/pid_max").unwrap_or(4_194_304);
+    (1..=n).map(|i| { let p = last as u64 + i as u64; if p >= max as u64 { (p - max as u64 + 300) as u32 } else { p as u32 } }).collect()
+}
+
 /// dest kinds: `absent`, `pre:<hex>`, `devfull`, `nodir`
 fn obs_c08(dir: &Path, src: &str, stack: bool, dest: &str, lim: Option<u64>) -> String {
+    // `stale:`: the process id of the spawned lace must be one of those prepared for; tried again
+    // (with more of them) in the rare case that it is not
+    for links in [3000u32, 3000, 30000] {
+        if let Some(obs) = obs_c08_once(dir, src, stack, dest, lim, links) {
+            return obs;
+        }
+    }
+    "st=pid-missed".into()
+}
+
+fn obs_c08_once(dir: &Path, src: &str, stack: bool, dest: &str, lim: Option<u64>, links: u32) -> Option<String> {
     use std::os::unix::ffi::OsStrExt;
     // the case runs in a directory of its own: `work/` holds the source, the destination and
     // whatever the command leaves behind; `work/sub/` holds symbolic links and their targets
@@ -729,13 +754,26 @@ fn obs_c08(dir: &Path, src: &str, stack: bool, dest: &str, lim: Option<u64>) -> 
     //           `real.lc3` (which exists with the given contents, or is absent: a dangling link)
     //   lnkabs: the same with an absolute target
     //   hard:   the destination (when it exists) has a second hard link, `sub/other-name.lc3`
+    //   stale:  the working directory already holds `.lace-tmp<pid>`, a symbolic link to the
+    //           destination, for the process id lace is going to have (and a few thousand others):
+    //           compile must refuse without touching anything (it used to write THROUGH that link,
+    //           leaving the destination truncated when the write failed)
+    //   deep:K  (no kind) the destination is `n/n/…/n`, K components, `n` a link to the working
+    //           directory: K <= 40 leads to that directory; beyond, the path cannot be resolved
+    //           (ELOOP) — at 41 only when the last component is followed, where compile used to
+    //           replace the link `n` by the object file and exit 0
     let (variant, kind) = match dest.split_once(':') {
-        Some((v, k)) if ["nu8", "long", "lnkrel", "lnkabs", "hard"].contains(&v) => (v, k),
+        Some((v, k)) if ["nu8", "long", "lnkrel", "lnkabs", "hard", "stale", "deep"].contains(&v) => (v, k),
         _ => ("", dest),
     };
+    let depth: usize = if variant == "deep" { kind.parse().ok()? } else { 0 };
     let pre: Option<Vec<u8>> = kind.strip_prefix("pre:").map(|h| unhex(h).unwrap_or_default());
     // (argument given to lace, path through which the destination is read afterwards)
-    let (dest_arg, read_path): (std::ffi::OsString, PathBuf) = if kind == "devfull" {
+    let (dest_arg, read_path): (std::ffi::OsString, PathBuf) = if variant == "deep" {
+        std::os::unix::fs::symlink(".", work.join("n")).unwrap();
+        let p = vec!["n"; depth].join("/");
+        (p.clone().into(), work.join(p))
+    } else if kind == "devfull" {
         // a private device node with /dev/full's numbers (1, 7), so that a change which renames a
         // file over its destination cannot clobber the machine's own /dev/full; the real one is
         // used only where no node can be made (not root)
@@ -775,21 +813,39 @@ fn obs_c08(dir: &Path, src: &str, stack: bool, dest: &str, lim: Option<u64>) -> 
             std::fs::hard_link(&p, work.join("sub/other-name.lc3")).unwrap();
         }
     }
+    let stale_links: Vec<std::ffi::OsString> = if variant == "stale" {
+        let names: Vec<std::ffi::OsString> = upcoming_pids(links).iter().map(|p| format!(".lace-tmp{}", p).into()).collect();
+        for n in &names {
+            std::os::unix::fs::symlink("out.lc3", work.join(n)).unwrap();
+        }
+        names
+    } else {
+        Vec::new()
+    };
     let mut a: Vec<&std::ffi::OsStr> = vec!["compile".as_ref(), "s.asm".as_ref(), dest_arg.as_os_str()];
     if stack {
         a.push("-f".as_ref());
         a.push("stack".as_ref());
     }
     let k = spawn_limited(&work, &a, &[], 20000, lim);
+    if variant == "stale" && !stale_links.contains(&format!(".lace-tmp{}", k.pid).into()) {
+        let _ = std::fs::remove_dir_all(&work);
+        return None;
+    }
     // anything left behind (temporary files; files written to the wrong place)
-    let expected: Vec<std::ffi::OsString> = vec!["s.asm".into(), "sub".into(), read_path.file_name().map(|n| n.to_owned()).unwrap_or_default()];
+    let mut expected: Vec<std::ffi::OsString> = vec!["s.asm".into(), "sub".into(), read_path.file_name().map(|n| n.to_owned()).unwrap_or_default()];
+    // the prepared links must all still be there, as links; so must `n`
+    let is_link = |p: PathBuf| std::fs::symlink_metadata(p).map(|m| m.file_type().is_symlink()).unwrap_or(false);
+    let links_gone = stale_links.iter().filter(|n| !is_link(work.join(n))).count() + (variant == "deep" && !is_link(work.join("n"))) as usize;
+    let stale_set: std::collections::HashSet<&std::ffi::OsString> = stale_links.iter().collect();
+    expected.retain(|n| !n.is_empty());
     let count = |d: &Path, ok: &[std::ffi::OsString]| -> usize {
-        std::fs::read_dir(d).map(|rd| rd.filter_map(|e| e.ok()).filter(|e| !ok.contains(&e.file_name())).count()).unwrap_or(0)
+        std::fs::read_dir(d).map(|rd| rd.filter_map(|e| e.ok()).filter(|e| !ok.contains(&e.file_name()) && !stale_set.contains(&e.file_name())).count()).unwrap_or(0)
     };
     let extra = count(&work, &expected) + count(&work.join("sub"), &["link.lc3".into(), "real.lc3".into(), "other-name.lc3".into()]);
     // the other name of a hard-linked destination keeps the old contents whatever happens
     let other_changed = variant == "hard" && pre.is_some() && std::fs::read(work.join("sub/other-name.lc3")).ok() != pre;
-    let extra = extra + other_changed as usize;
+    let extra = extra + other_changed as usize + links_gone;
     let after = if kind == "devfull" {
         use std::os::unix::fs::FileTypeExt;
         match std::fs::symlink_metadata(&read_path) {
@@ -806,7 +862,7 @@ fn obs_c08(dir: &Path, src: &str, stack: bool, dest: &str, lim: Option<u64>) -> 
         }
     };
     let _ = std::fs::remove_dir_all(&work);
-    format!("st={} dest={} extra={}", st(&k), after, extra)
+    Some(format!("st={} dest={} extra={}", st(&k), after, extra))
 }
 
 fn lim_tok(lim: Option<u64>) -> String {
@@ -853,9 +909,32 @@ pub fn run_c08(o: &crate::Opts) {
         ] {
             for k in 0..=8u64 {
                 let obs = obs_c08(&dir, src, false, dest, Some(k));
+                if obs == "st=pid-missed" {
+                    // the prepared process ids were all missed (a very busy machine): no observation
+                    continue;
+                }
                 *kinds.entry(format!("limit-sweep:{}", obs.split(' ').next().unwrap())).or_default() += 1;
                 sink.put(&format!("S08 0 {} {} {}", hex(src.as_bytes()), dest, lim_tok(Some(k))), &obs);
             }
+        }
+    }
+    // the two defects found by modelling the file system: a stale link with the temporary file's
+    // name pointing at the destination (with and without a failing write), and destination paths
+    // around the limit of 40 symbolic links
+    if o.shard == 0 {
+        let src = "add r0 r0 #1\nhalt\n";
+        let cases: [(&str, Option<u64>); 8] = [
+            ("stale:pre:0102030405060708", Some(3)), ("stale:pre:0102030405060708", None), ("stale:pre:0102", Some(0)), ("stale:pre:0102", Some(8)),
+            ("deep:39", None), ("deep:40", None), ("deep:41", None), ("deep:42", None),
+        ];
+        for (dest, lim) in cases {
+            let obs = obs_c08(&dir, src, false, dest, lim);
+            if obs == "st=pid-missed" {
+                // the prepared process ids were all missed (a very busy machine): no observation
+                continue;
+            }
+            *kinds.entry(format!("{}:{}", dest.split(':').next().unwrap(), obs.split(' ').next().unwrap())).or_default() += 1;
+            sink.put(&format!("S08 0 {} {} {}", hex(src.as_bytes()), dest, lim_tok(lim)), &obs);
         }
     }
     for i in 0..per {
@@ -914,6 +993,10 @@ pub fn run_c08(o: &crate::Opts) {
             dest
         };
         let obs = obs_c08(&dir, &src, stack, &dest, lim);
+        if obs == "st=pid-missed" {
+            // the prepared process ids were all missed (a very busy machine): no observation
+            continue;
+        }
         *kinds.entry(format!("{}{}:{}", dest.split(':').next().unwrap(), if lim.is_some() { "+limit" } else { "" }, obs.split(' ').next().unwrap())).or_default() += 1;
         if samples.len() < 3 && rng.chance(1, 8) {
             samples.push(format!("{{\"fail_at\":{},\"statements\":{},\"dest\":\"{}\",\"size_limit\":\"{}\",\"observed\":\"{}\"}}", k, n, dest, lim_tok(lim), obs));
